@@ -229,7 +229,15 @@ func (w *vC17sWorld) check(tag string) {
 }
 
 func (w *vC17sWorld) step() {
-	switch rt.Choose(6) {
+	switch rt.Choose(7) {
+	case 6: // a subscribe frame of a stream that has just ended is still being handled: nothing of it may stay,
+		// and nothing of anybody else's may go
+		i := rt.Choose(2)
+		if w.streams[i] != 0 {
+			ctx := streampool.VerifStreamCtx(w.s.pool, w.streams[i])
+			w.closeStream(i)
+			w.s.handleSubscribe(ctx, "peer"+w.accts[i], &pubsubproto.Subscribe{SpaceId: vC17sSpaces[rt.Choose(2)], Topics: []string{vC17sPatterns[rt.Choose(2)]}})
+		}
 	case 5: // a subscribe frame that names no topic at all: nothing is subscribed, nothing may be recorded
 		i := rt.Choose(2)
 		if w.streams[i] != 0 {
